@@ -15,7 +15,10 @@ import (
 	"sort"
 	"testing"
 
+	"sync"
+
 	"github.com/hugelgupf/p9/fsimpl/localfs"
+	"github.com/hugelgupf/p9/linux"
 	"github.com/hugelgupf/p9/fsimpl/staticfs"
 	"github.com/hugelgupf/p9/p9"
 )
@@ -39,6 +42,48 @@ type vh19Pages struct {
 	Pages  [][]vh19Ent   `json:"pages"`
 	Hit    bool          `json:"hit"`
 	Err    string        `json:"err,omitempty"`
+}
+
+// vh19Mut is a mounted file whose own identity (QID version and/or path) changes while it is mounted: what a
+// file that is modified (9P: the version moves on) or replaced on the host looks like to composefs.  All clones
+// share the cell, as all Files of one host object would.
+type vh19MutCell struct {
+	mu sync.Mutex
+	q  p9.QID
+}
+
+func (c *vh19MutCell) get() p9.QID { c.mu.Lock(); defer c.mu.Unlock(); return c.q }
+func (c *vh19MutCell) set(q p9.QID) { c.mu.Lock(); c.q = q; c.mu.Unlock() }
+
+type vh19Mut struct {
+	p9.File
+	cell *vh19MutCell
+}
+
+func vh19NewMut(q p9.QID) (vh19Mut, *vh19MutCell) {
+	c := &vh19MutCell{q: q}
+	return vh19Mut{File: staticfs.ReadOnlyFile("mutable"), cell: c}, c
+}
+
+func (f vh19Mut) Walk(names []string) ([]p9.QID, p9.File, error) {
+	if len(names) == 0 {
+		return nil, f, nil
+	}
+	return nil, nil, linux.ENOTDIR
+}
+
+func (f vh19Mut) WalkGetAttr(names []string) ([]p9.QID, p9.File, p9.AttrMask, p9.Attr, error) {
+	return nil, nil, p9.AttrMask{}, p9.Attr{}, linux.ENOSYS
+}
+
+func (f vh19Mut) GetAttr(req p9.AttrMask) (p9.QID, p9.AttrMask, p9.Attr, error) {
+	_, mask, attr, err := f.File.GetAttr(req)
+	return f.cell.get(), mask, attr, err
+}
+
+func (f vh19Mut) Open(mode p9.OpenFlags) (p9.QID, uint32, error) {
+	_, io, err := f.File.Open(mode)
+	return f.cell.get(), io, err
 }
 
 func vh19Q(q p9.QID) [3]uint64 { return [3]uint64{uint64(q.Type), uint64(q.Version), q.Path} }
@@ -235,8 +280,14 @@ func TestVerifC19Compose(t *testing.T) {
 		// composefs root: every name a mount (files, and now and then a staticfs or an inner composefs)
 		fss = append(fss, vh19FS{2, func() p9.Attacher {
 			var opts []Opt
+			var cells []*vh19MutCell
 			for i, n := range names {
 				switch i % 7 {
+				case 1:
+					// a file whose identity moves on after it was mounted (below): Readdir, Walk and GetAttr must all ask it
+					m, c := vh19NewMut(p9.QID{Type: p9.TypeRegular, Version: 0, Path: uint64(100 + i)})
+					cells = append(cells, c)
+					opts = append(opts, WithFile(n, m))
 				case 3:
 					opts = append(opts, WithMount(n, vh19Static(t, []string{"x", "y"})))
 				case 5:
@@ -248,6 +299,14 @@ func TestVerifC19Compose(t *testing.T) {
 			a, err := New(opts...)
 			if err != nil {
 				t.Fatal(err)
+			}
+			for i, c := range cells {
+				q := c.get()
+				q.Version += uint32(1 + i)
+				if i%2 == 1 {
+					q.Path += 1000000 // replaced by another object
+				}
+				c.set(q)
 			}
 			return a
 		}, nil, names})
@@ -334,8 +393,11 @@ func TestVerifC19Compose(t *testing.T) {
 // ---- scripted operation sequences on generated mount shapes ----
 
 type vh19Leaf struct {
-	Static bool     `json:"static"`
-	Names  []string `json:"names,omitempty"`
+	Static bool      `json:"static"`
+	Names  []string  `json:"names,omitempty"`
+	Mut    bool      `json:"mut,omitempty"`
+	Q      [3]uint64 `json:"q"`
+	cell   *vh19MutCell
 }
 type vh19Mnt struct {
 	Name  string    `json:"name"`
@@ -344,7 +406,9 @@ type vh19Mnt struct {
 	IsSub bool      `json:"issub"`
 }
 type vh19Op struct {
-	Read bool     `json:"read"`
+	Bump bool      `json:"bump,omitempty"` // the top-level mount Name reports QID Q from now on
+	Q    [3]uint64 `json:"q"`
+	Read bool      `json:"read"`
 	Path []string `json:"path"`
 	Off  uint64   `json:"off"`
 	Cnt  uint32   `json:"cnt"`
@@ -385,6 +449,11 @@ func vh19GenLeaf(r *rand.Rand) *vh19Leaf {
 }
 
 func vh19LeafOpt(t *testing.T, name string, l *vh19Leaf) Opt {
+	if l.Mut {
+		m, c := vh19NewMut(p9.QID{Type: p9.QIDType(l.Q[0]), Version: uint32(l.Q[1]), Path: l.Q[2]})
+		l.cell = c
+		return WithFile(name, m)
+	}
 	if !l.Static {
 		return WithFile(name, staticfs.ReadOnlyFile("f"))
 	}
@@ -405,8 +474,16 @@ func vh19Qids(t *testing.T, out *vhfsOut, r *rand.Rand) {
 					sub = append(sub, vh19Mnt{Name: sn, Leaf: vh19GenLeaf(r)})
 				}
 				shape = append(shape, vh19Mnt{Name: nm, Sub: sub, IsSub: true})
+			} else if r.Intn(3) == 0 {
+				shape = append(shape, vh19Mnt{Name: nm, Leaf: &vh19Leaf{Mut: true, Q: [3]uint64{0, uint64(r.Intn(3)), uint64(r.Intn(4))}}})
 			} else {
 				shape = append(shape, vh19Mnt{Name: nm, Leaf: vh19GenLeaf(r)})
+			}
+		}
+		var muts []vh19Mnt
+		for _, m := range shape {
+			if !m.IsSub && m.Leaf.Mut {
+				muts = append(muts, m)
 			}
 		}
 		var opts []Opt
@@ -469,6 +546,19 @@ func vh19Qids(t *testing.T, out *vhfsOut, r *rand.Rand) {
 		c := vh19QCase{Kind: "qids", Shape: shape}
 		nops := 5 + r.Intn(30)
 		for oi := 0; oi < nops; oi++ {
+			if len(muts) > 0 && r.Intn(6) == 0 {
+				// a mount's identity moves on: new version, now and then another path (replaced object, possibly one seen before)
+				m := muts[r.Intn(len(muts))]
+				q := m.Leaf.cell.get()
+				q.Version = uint32(r.Intn(4))
+				if r.Intn(2) == 0 {
+					q.Path = uint64(r.Intn(4))
+				}
+				m.Leaf.cell.set(q)
+				c.Ops = append(c.Ops, vh19Op{Bump: true, Name: m.Name, Q: vh19Q(q)})
+				c.Res = append(c.Res, vh19Res{Kind: "bump"})
+				continue
+			}
 			var path []string
 			_, ns := isDir(nil)
 			for d := r.Intn(3); d > 0; d-- {
